@@ -103,13 +103,15 @@ inductive BRes
 deriving DecidableEq, Repr
 
 /-- `Balance::call` → `Connection::call` → … → `Reconnect::call` on the picked service, which
-then goes back to the pending set. -/
+then goes back to the pending set (it is not polled again during this call, so what its
+connection task has or has not seen no longer matters: `fresh` is cleared). -/
 def serveEP (e : EP) : EP × BRes :=
   match Reconnect.call e.r with
-  | (r', .error x) => ({ e with r := r', ready := false }, .err e.key x)
+  | (r', .error x) => ({ e with r := r', ready := false, fresh := false }, .err e.key x)
   | (r', .sent c) =>
-    ({ e with r := r', ready := false }, if e.w.alive = some c then .resp e.key e.w.gen else .lost e.key)
-  | (r', .panic) => ({ e with r := r', ready := false }, .panic)
+    ({ e with r := r', ready := false, fresh := false },
+      if e.w.alive = some c then .resp e.key e.w.gen else .lost e.key)
+  | (r', .panic) => ({ e with r := r', ready := false, fresh := false }, .panic)
 
 /-- The balancer picked the ready service `e`: `check_ready_index`, then `call` if it is still
 ready, else it is back in the pending set. -/
@@ -229,6 +231,15 @@ def run (s : B) : List BOp → List Choice → List (Nat × BRes)
   | .down k :: ops, chs => run (env s (.down k)) ops chs
   | .insert k :: ops, chs => run (env s (.insert k)) ops chs
   | .remove k :: ops, chs => run (env s (.remove k)) ops chs
+
+/-- The state a script leads to (the `i`-th call uses the `i`-th choice). -/
+def exec (s : B) : List BOp → List Choice → B
+  | [], _ => s
+  | .call :: ops, chs => exec (call s (chs.headD ⟨[], 0⟩)).1 ops chs.tail
+  | .up k :: ops, chs => exec (env s (.up k)) ops chs
+  | .down k :: ops, chs => exec (env s (.down k)) ops chs
+  | .insert k :: ops, chs => exec (env s (.insert k)) ops chs
+  | .remove k :: ops, chs => exec (env s (.remove k)) ops chs
 
 /-- `m` calls in a row, nothing else happening. -/
 def calls (s : B) : List Choice → List BRes
